@@ -30,7 +30,7 @@ type column struct {
 	name      string
 	ctype     string
 	notnull   int
-	dfltValue *int
+	dfltValue *string
 	pk        int
 }
 
